@@ -108,7 +108,7 @@ pub fn run(ctx: &mut Ctx) {
 
     let miri = ctx.mode == "miri";
     // ---- (a) reference discovery
-    let total = if miri { 200 } else { ctx.size(300_000, 10_000_000) };
+    let total = if miri { 200 } else { ctx.size(3_000_000, 20_000_000) };
     for n in ctx.cases("texts", total) {
         let mut rng = ctx.begin("texts", n);
         ctx.eval();
@@ -155,7 +155,7 @@ pub fn run(ctx: &mut Ctx) {
     }
 
     // ---- (b) + (c): own data URLs, embedded in a comment, and detection of every serialised map
-    let total = if miri { 48 } else { ctx.size(60_000, 2_000_000) };
+    let total = if miri { 48 } else { ctx.size(300_000, 3_000_000) };
     for n in ctx.cases("maps", total) {
         let mut rng = ctx.begin("maps", n);
         ctx.eval();
